@@ -14,7 +14,7 @@ import numpy as onp
 
 NC = 4  # number of scalar coefficients packed behind b
 
-FAMILIES = ("quad", "convex_nq", "quartic", "rosen", "wells", "rankdef", "flat_exp", "flat_rat", "barrier", "cos", "valley")
+FAMILIES = ("quad", "convex_nq", "quartic", "rosen", "wells", "rankdef", "flat_exp", "flat_rat", "barrier", "cos", "valley", "twoscale")
 CONVEX = ("quad", "convex_nq")
 FLAT = ("flat_exp", "flat_rat")
 # families whose value is finite for every finite x (mathematically); 'barrier' is NaN outside |x_i| < 2
@@ -70,6 +70,18 @@ def family(name):
         k = p[2][0]
         return np.sum(k * c[0] * 100.0 * (x[1:] - x[:-1] ** 2) ** 2 + (1.0 - x[:-1]) ** 2) + 0.5 * c[1] * (x[-1] - 1.0) ** 2 - b @ x
 
+    def twoscale(x, p):
+        # stiff quadratic well 0.5*(x-b)'A(x-b) (A diagonal: K on the stiff variables, 0 on the soft ones) + an O(1) non-quadratic
+        # part on ALL variables measured from b:  c0*sum sqrt(a^2+y^2) + c1*sum log(1+exp(y)) + c2*sum (y^2-1)^2 + weak coupling
+        A, b, c = unpack(x, p)
+        y = x - b
+        soft = np.where(np.diag(A) == 0.0, 1.0, 0.0)
+        a = 0.1
+        val = 0.5 * y @ (A @ y)
+        val = val + c[0] * np.sum(soft * np.sqrt(a * a + y * y)) + c[1] * np.sum(soft * np.logaddexp(y, 0.0))
+        val = val + c[2] * np.sum(soft * (y * y - 1.0) ** 2) + c[3] * np.sum(y[1:] * y[:-1])
+        return val
+
     def wells(x, p):
         A, b, c = unpack(x, p)
         return np.sum((x ** 2 - 1.0) ** 2) + 0.1 * x @ (A @ x)
@@ -96,7 +108,7 @@ def family(name):
         A, b, c = unpack(x, p)
         return 0.5 * x @ (A @ x) - b @ x + c[0] * np.sum(np.cos(3.0 * x))
 
-    for f in (quad, convex_nq, quartic, rosen, wells, rankdef, flat_exp, flat_rat, barrier, cos, valley):
+    for f in (quad, convex_nq, quartic, rosen, wells, rankdef, flat_exp, flat_rat, barrier, cos, valley, twoscale):
         _fam_cache[f.__name__] = f
     return _fam_cache[name]
 
